@@ -42,4 +42,30 @@ Definition metadb_MetaKey : list N := [109]%N. (* "m" *)
 
 (* ---- package fs (fs) ---- *)
 
+(* ---- schedule points (verifPoint call sites; name, enclosing function) ---- *)
+Definition hook_points : list (list N * list N) :=
+  [ ([65; 112; 112; 101; 110; 100; 46; 98; 117; 102; 102; 101; 114; 101; 100]%N, [65; 112; 112; 101; 110; 100]%N); (* Append.buffered in Append *)
+    ([67; 108; 111; 115; 101; 46; 102; 108; 97; 103; 83; 101; 116]%N, [67; 108; 111; 115; 101]%N); (* Close.flagSet in Close *)
+    ([67; 108; 111; 115; 101; 46; 108; 111; 99; 107; 101; 100]%N, [67; 108; 111; 115; 101]%N); (* Close.locked in Close *)
+    ([67; 108; 111; 115; 101; 46; 115; 116; 97; 116; 101; 83; 119; 97; 112; 112; 101; 100]%N, [67; 108; 111; 115; 101]%N); (* Close.stateSwapped in Close *)
+    ([68; 101; 108; 101; 116; 101; 82; 97; 110; 103; 101; 46; 99; 104; 101; 99; 107; 101; 100]%N, [68; 101; 108; 101; 116; 101; 82; 97; 110; 103; 101]%N); (* DeleteRange.checked in DeleteRange *)
+    ([68; 101; 108; 101; 116; 101; 82; 97; 110; 103; 101; 46; 108; 111; 99; 107; 101; 100]%N, [68; 101; 108; 101; 116; 101; 82; 97; 110; 103; 101]%N); (* DeleteRange.locked in DeleteRange *)
+    ([70; 105; 114; 115; 116; 73; 110; 100; 101; 120; 46; 99; 104; 101; 99; 107; 101; 100]%N, [70; 105; 114; 115; 116; 73; 110; 100; 101; 120]%N); (* FirstIndex.checked in FirstIndex *)
+    ([71; 101; 116; 46; 99; 104; 101; 99; 107; 101; 100]%N, [71; 101; 116]%N); (* Get.checked in Get *)
+    ([71; 101; 116; 76; 111; 103; 46; 99; 104; 101; 99; 107; 101; 100]%N, [71; 101; 116; 76; 111; 103]%N); (* GetLog.checked in GetLog *)
+    ([76; 97; 115; 116; 73; 110; 100; 101; 120; 46; 99; 104; 101; 99; 107; 101; 100]%N, [76; 97; 115; 116; 73; 110; 100; 101; 120]%N); (* LastIndex.checked in LastIndex *)
+    ([79; 102; 102; 115; 101; 116; 70; 111; 114; 70; 114; 97; 109; 101; 46; 99; 104; 101; 99; 107; 101; 100]%N, [79; 102; 102; 115; 101; 116; 70; 111; 114; 70; 114; 97; 109; 101]%N); (* OffsetForFrame.checked in OffsetForFrame *)
+    ([83; 101; 116; 46; 99; 104; 101; 99; 107; 101; 100]%N, [83; 101; 116]%N); (* Set.checked in Set *)
+    ([83; 116; 111; 114; 101; 76; 111; 103; 115; 46; 99; 104; 101; 99; 107; 101; 100]%N, [83; 116; 111; 114; 101; 76; 111; 103; 115]%N); (* StoreLogs.checked in StoreLogs *)
+    ([83; 116; 111; 114; 101; 76; 111; 103; 115; 46; 108; 111; 99; 107; 101; 100]%N, [83; 116; 111; 114; 101; 76; 111; 103; 115]%N); (* StoreLogs.locked in StoreLogs *)
+    ([97; 99; 113; 117; 105; 114; 101; 83; 116; 97; 116; 101; 46; 108; 111; 97; 100; 101; 100]%N, [97; 99; 113; 117; 105; 114; 101; 83; 116; 97; 116; 101]%N); (* acquireState.loaded in acquireState *)
+    ([97; 119; 97; 105; 116; 82; 111; 116; 97; 116; 105; 111; 110; 46; 119; 97; 105; 116; 105; 110; 103]%N, [97; 119; 97; 105; 116; 82; 111; 116; 97; 116; 105; 111; 110; 76; 111; 99; 107; 101; 100]%N); (* awaitRotation.waiting in awaitRotationLocked *)
+    ([109; 117; 116; 97; 116; 101; 83; 116; 97; 116; 101; 46; 99; 111; 109; 109; 105; 116; 116; 101; 100]%N, [109; 117; 116; 97; 116; 101; 83; 116; 97; 116; 101; 76; 111; 99; 107; 101; 100]%N); (* mutateState.committed in mutateStateLocked *)
+    ([109; 117; 116; 97; 116; 101; 83; 116; 97; 116; 101; 46; 112; 117; 98; 108; 105; 115; 104; 101; 100]%N, [109; 117; 116; 97; 116; 101; 83; 116; 97; 116; 101; 76; 111; 99; 107; 101; 100]%N); (* mutateState.published in mutateStateLocked *)
+    ([114; 101; 108; 101; 97; 115; 101; 46; 108; 97; 115; 116; 82; 101; 102]%N, [114; 101; 108; 101; 97; 115; 101]%N); (* release.lastRef in release *)
+    ([114; 117; 110; 82; 111; 116; 97; 116; 101; 46; 108; 111; 99; 107; 101; 100]%N, [114; 117; 110; 82; 111; 116; 97; 116; 101]%N); (* runRotate.locked in runRotate *)
+    ([114; 117; 110; 82; 111; 116; 97; 116; 101; 46; 114; 101; 99; 101; 105; 118; 101; 100]%N, [114; 117; 110; 82; 111; 116; 97; 116; 101]%N); (* runRotate.received in runRotate *)
+    ([115; 121; 110; 99; 46; 100; 117; 114; 97; 98; 108; 101]%N, [115; 121; 110; 99]%N) (* sync.durable in sync *)
+  ].
+
 (* integer functions not translated (body outside the straight-line fragment):  *)
